@@ -133,6 +133,9 @@ struct Sess {
     /// last tip change; every such state has been dumped.
     understated: HashMap<ProposalShortId, (u64, u64, bool)>,
     understated_tip: H,
+    /// set by `quiesce` when it gives up although the pool has already processed the
+    /// notification that names the chain tip (its snapshot is behind for good)
+    stuck: std::cell::RefCell<Option<String>>,
 }
 
 fn id_hex(id: &ProposalShortId) -> String {
@@ -196,6 +199,13 @@ pub fn run(args: &Args) -> i32 {
     }
     hooks::install();
     hooks::install_panic_monitor();
+    // seeded delays right before the pool takes its write lock for a reorg notification: the
+    // notifications of blocks delivered back to back are in flight together
+    {
+        let mut points = std::collections::BTreeMap::new();
+        points.insert("pool::before_reorg_lock", (250u64, 2_500u64));
+        hooks::set_plan(hooks::DelayPlan { points, seed: args.seed ^ 0x9e37 });
+    }
     let mk = |id: &str, rule: &str| Report::new(id, "exploration", args, rule);
     let mut r = Reports {
         c11: mk("C11", "random pool operation sequences on a real tx-pool service (submit over tx DAGs, RBF, remove, expire, size eviction, blocks, reorgs, template mining); after every operation the dump of the pool (taken under its lock) is judged by recomputation; distinct = pool link-graph shapes (sorted (status, #parents, #children, ancestors_count) tuples) seen at check time"),
@@ -408,6 +418,7 @@ fn run_session(rng: &mut Rng, si: u64, n_ops: u64, r: &mut Reports) {
         last_work_id: None,
         understated: HashMap::new(),
         understated_tip: genesis,
+        stuck: std::cell::RefCell::new(None),
     };
     // warm-up: a few blocks so that rewards / windows exist
     for _ in 0..(3 + s.rng.below(3)) {
@@ -425,6 +436,7 @@ fn run_session(rng: &mut Rng, si: u64, n_ops: u64, r: &mut Reports) {
             16 => Some(2),
             23 => Some(4),
             30 => Some(3),
+            12 => Some(7),
             37 => Some(6),
             44 => Some(1),
             51 => Some(5),
@@ -442,6 +454,7 @@ fn run_session(rng: &mut Rng, si: u64, n_ops: u64, r: &mut Reports) {
                 3 => s.op_dep_spend(r, true),
                 5 => s.op_rbf_equal(r),
                 6 => s.op_readd_family(r),
+                7 => s.op_cellref_evict(r),
                 _ => s.op_pool_pressure(r),
             };
             if !ok {
@@ -521,6 +534,20 @@ impl Sess {
                 acc_reorgs.append(&mut d.reorgs);
             }
             if t0.elapsed() > Duration::from_secs(30) {
+                // not caught up: still working on it, or already done with the notification that
+                // names this tip and nevertheless on another snapshot?
+                if let Ok(mut d) = self.n.shared.tx_pool_controller().verif_dump() {
+                    acc_reorgs.append(&mut d.reorgs);
+                    let tip = self.n.tip_hash();
+                    if d.snapshot_tip != tip && acc_reorgs.iter().any(|n| n.snapshot_tip == tip) {
+                        *self.stuck.borrow_mut() = Some(format!(
+                            "chain tip {} ; the pool has processed the notification for that tip (processing order of the last notifications: {:?}) but its snapshot is at {} after 30 s",
+                            hx(&h(&tip)),
+                            acc_reorgs.iter().rev().take(4).rev().map(|n| hx(&h(&n.snapshot_tip))).collect::<Vec<_>>(),
+                            hx(&h(&d.snapshot_tip))
+                        ));
+                    }
+                }
                 return None;
             }
             std::thread::sleep(Duration::from_micros(300));
@@ -953,7 +980,10 @@ impl Sess {
             return false;
         }
         let Some(post) = self.quiesce() else {
-            r.c12.inconclusive("watchdog: pool did not catch up with the chain tip in 30 s");
+            match self.stuck.borrow_mut().take() {
+                Some(detail) => r.c12.violation("pool.snapshot_behind_chain_tip_after_processing_its_notification", detail, self.witness(json!({}))),
+                None => r.c12.inconclusive("watchdog: pool did not catch up with the chain tip in 30 s"),
+            }
             return false;
         };
         self.after_tip_change_with(pre, post, old_tip, r)
@@ -2070,6 +2100,58 @@ impl Sess {
             }
         }
         true
+    }
+
+
+    /// C11 (eviction of "cell ref parents" at the ancestor limit): a chain A0 <- A1 <- .. of
+    /// max_ancestors pooled transactions, each with a cell dep on its own chain cell c_i, the
+    /// first one paying the lowest fee rate (so it is the first eviction candidate and takes its
+    /// descendants with it); then X spends every c_i: all A_i are its parents through the cell
+    /// reference order, the ancestor limit is exceeded and can only be met by evicting them.
+    fn op_cellref_evict(&mut self, r: &mut Reports) -> bool {
+        let l = self.pcfg.max_ancestors;
+        if self.flavor == Flavor::SmallCycles || l > 8 {
+            return self.op_submit(r, true);
+        }
+        let Some(pre) = self.quiesce() else { return false };
+        let tip_n = self.tg.rc.get(&self.n_tip()).number;
+        let cells = self.chain_cells(&pre, tip_n);
+        if cells.len() < l + 2 {
+            return true;
+        }
+        r.c11.count("ops.scenario_cellref_evict");
+        let mut prev: (OutPoint, u64) = cells[l].clone();
+        self.tg.keep.insert(op_key(&prev.0));
+        let mut chain: Vec<TransactionView> = vec![];
+        for i in 0..l {
+            let c = &cells[i];
+            self.tg.keep.insert(op_key(&c.0));
+            let dep = CellDep::new_builder().out_point(c.0.clone()).build();
+            // A0 cheapest; later members pay clearly more
+            let rate = if i == 0 { self.min_fee_rate + 20 } else { self.min_fee_rate + 2_000 + 500 * i as u64 };
+            let Some(t) = self.simple_tx(std::slice::from_ref(&prev), rate, 0, &[dep], 0) else { return true };
+            let cap: u64 = t.outputs().get(0).unwrap().capacity().into();
+            prev = (OutPoint::new(t.hash(), 0), cap);
+            chain.push(t);
+        }
+        for t in &chain {
+            let Some(d) = self.quiesce() else { return false };
+            match self.submit_tx(r, t, &d, "(cell-ref chain)") {
+                None => return false,
+                Some(true) => {}
+                Some(false) => return true,
+            }
+        }
+        let ins: Vec<(OutPoint, u64)> = cells.iter().take(l).cloned().collect();
+        let Some(x) = self.simple_tx(&ins, self.min_fee_rate + 5_000, 0, &[], 0) else { return true };
+        let Some(d) = self.quiesce() else { return false };
+        match self.submit_tx(r, &x, &d, "(spender of every dep cell of the chain)") {
+            None => false,
+            Some(acc) => {
+                r.c11.count(if acc { "obs.cellref_evict.spender_admitted" } else { "obs.cellref_evict.spender_refused" });
+                true
+            }
+        }
     }
 
     /// C11: submissions until the pool's size limit evicts (or refuses) something; only in
